@@ -36,7 +36,7 @@ def cmdTce (spec : Bool) (a : List String) : String :=
         let nodes := Spec.pathNodes ((control.length - 33) / 32) (control.drop 33)
         let ks := Spec.merkleChain o leaf nodes
         let res := if Spec.bip341Valid o control script program then "DONE" else "FAILED"
-        s!"leaf={toHex leaf} ks={",".intercalate (ks.map toHex)} steps={nodes.length + 1} result={res} lines={nodes.length + 2}"
+        s!"leaf={toHex leaf} ks={",".intercalate (ks.map toHex)} steps={nodes.length + 1} result={res} lines={nodes.length + 1}"
       else
         let t := Model.Tce.init Glue.tapCtx control program script
         let (ks, steps, res) := tceLoop t 200 [t.k] 0
